@@ -332,6 +332,29 @@ fn exec_c15(doc: &serde_json::Value, mask: u64) -> Option<crate::c15::Viol> {
     crate::c15::check_map(map_seed, mask, n_seeds, None, &mut stats)
 }
 
+/// The maps of one shard run in one process.  When a violation does not show on the map alone
+/// (process-global state left by earlier maps), replay the shard's history up to that map.
+fn exec_c15_with_history(doc: &serde_json::Value) -> Option<crate::c15::Viol> {
+    let seed = doc.get("verif_seed").and_then(|s| s.as_u64())?;
+    let run = doc.get("run").and_then(|s| s.as_u64())?;
+    let shard = doc.get("shard").and_then(|s| s.as_u64())?;
+    let shards = doc.get("shards").and_then(|s| s.as_u64())?;
+    let n_seeds = doc.get("n_seeds").and_then(|s| s.as_u64()).unwrap_or(4) as usize;
+    let mut last = None;
+    for i in 0..=run {
+        if i % shards != shard {
+            continue;
+        }
+        let map_seed = simcore::prng::mix(seed ^ simcore::prng::tag("c15") ^ i);
+        let mut stats = crate::c15::MapStats::default();
+        let v = crate::c15::check_map(map_seed, u64::MAX, n_seeds, None, &mut stats);
+        if i == run {
+            last = v;
+        }
+    }
+    last
+}
+
 fn replay_sweep(doc: &serde_json::Value, path: &str) -> i32 {
     let class = doc.get("class").and_then(|c| c.as_str()).unwrap_or("");
     let item = doc.get("item").and_then(|c| c.as_u64()).unwrap_or(0) as usize;
@@ -361,7 +384,14 @@ fn replay_c15(doc: &serde_json::Value, path: &str) -> i32 {
     }
     let class = doc.get("class").and_then(|c| c.as_str()).unwrap_or("");
     let mask: u64 = doc.get("mask").and_then(|s| s.as_str()).and_then(|s| s.parse().ok()).unwrap_or(u64::MAX);
-    match exec_c15(doc, mask) {
+    let mut result = exec_c15(doc, mask);
+    if result.is_none() {
+        result = exec_c15_with_history(doc);
+        if result.is_some() {
+            println!("replay: the violation needs the history of its shard (maps before it in the same process)");
+        }
+    }
+    match result {
         None => {
             println!("replay: no violation");
             0
